@@ -224,6 +224,10 @@ func (c Collection) Collection() ItemCollection {
 // Append adds an element to a Collection
 func (c *Collection) Append(it ...Item) error {
 	for _, ob := range it {
+		if IsNil(ob) {
+			// nothing to append
+			continue
+		}
 		if c.Items.Contains(ob) {
 			continue
 		}
